@@ -16,6 +16,17 @@ Monitor clauses (computed from the implementation's dumps / operation history on
                       (the commitment fee rate is taken from the last one)
   revocation-state    stored revocation points / store / revocation log do not match the remote height
   fwd-pkgs            forwarding packages lost, duplicated or changed
+  fwdpkg-reload       a reloaded package is not the pre-crash package: adds / settle-fails, count or
+                      content of the ack / settle-fail / forwarding filter (a package seen for the
+                      first time must be what NewFwdPkg builds; afterwards exactly the indices
+                      acknowledged by the node's link are contained, the forwarding filter is the
+                      first decision persisted, else an empty filter over the adds)
+  fwdpkg-isfull       IsFull() of a loaded filter ≠ "Contains(i) for every i < count"
+  fwdpkg-state        state ≠ lockedIn / processed / completed as implied by the history
+  fwdpkg-op-failed    SetFwdFilter / AckAddHtlcs / AckSettleFails with valid references failed
+                      (stream `fwdpkg`, FwdDriver.lean: the same clauses on two channels in one
+                      channeldb with reload after every transaction, package removal, acks through
+                      AppendRemoteCommitChain, plus pkgfilter-contains / -isfull / -roundtrip)
   sig-stored          stored commitment / HTLC signatures differ from the ones received / sent
   release-before-durable  a revoke_and_ack left the node while the durable local commitment height
                       was not above the height of the released secret
@@ -33,6 +44,7 @@ import LndModel.C02.Model
 import LndModel.C02.Spec
 import LndModel.C02.Total
 import LndModel.C02.Lemmas
+import LndModel.C02.FwdDriver
 
 open LndModel LndModel.Lines LndModel.C01 LndModel.C02
 
@@ -186,6 +198,7 @@ structure KDump where
   uaL : List Entry := []
   rulL : List Entry := []
   fwd : List FwdPkg := []
+  fwdD : List Fwd.Driver.LPkg := []       -- the same packages in full (state, filters)
   fwdErr : Bool := false
   raw : List String := []
 deriving Repr, Inhabited
@@ -204,6 +217,18 @@ def parseUpd (tok : String) : Option Entry :=
 def parseFwd (tok : String) : Option FwdPkg :=
   match tok.splitOn ":" with
   | ["F", h, a, r] => some ⟨natD h, parseIds a, parseIds r⟩
+  | ["F", h, a, r, _, _, _, _] => some ⟨natD h, parseIds a, parseIds r⟩
+  | _ => none
+
+def updOfId (i : Nat) : Fwd.Upd := ⟨0, 0, i, 0⟩
+
+/-- `F:height:adds:settlefails:state:fwd:ack:sf` with each filter as `enc/full/bits`. -/
+def parseFwdD (tok : String) : Option Fwd.Driver.LPkg :=
+  match tok.splitOn ":" with
+  | ["F", h, a, r, st, f1, f2, f3] =>
+    some { height := natD h, state := (st.toNat?).getD 9, adds := (parseIds a).map updOfId,
+           sfs := (parseIds r).map updOfId, fwd := Fwd.Driver.parseFDump f1, ack := Fwd.Driver.parseFDump f2,
+           sf := Fwd.Driver.parseFDump f3 }
   | _ => none
 
 def parseDiskCommit (rest : List String) : DCommit :=
@@ -266,6 +291,11 @@ structure St where
   revsB : List RevSeen := []
   fwdA : List FwdPkg := []                -- forwarding packages seen so far
   fwdB : List FwdPkg := []
+  fhA : List Fwd.Hist := []               -- history of every package (created with / acknowledged / decision)
+  fhB : List Fwd.Hist := []
+  linkOps : Nat := 0
+  pkgDetailChecks : Nat := 0
+  pkgPartial : Nat := 0
   borked : Bool := false
   taint : Option String := none   -- a known defect was observed at a real restart of this case
   dirty : List String := []
@@ -721,6 +751,20 @@ def probeChecks (s : St) (node : String) : IO St := do
         s ← monitor s "fwd-pkgs" s!"node={node} incoming HTLC {h.idx} is locked in on both commitments but in no forwarding package"
     | _, _ => pure ()
   s := if node == "A" then { s with fwdA := k.fwd } else { s with fwdB := k.fwd }
+  -- every package in full against its history: a package seen for the first time must be exactly
+  -- what NewFwdPkg builds (locked in, three empty filters of the right counts); afterwards state and
+  -- filters must be what the acknowledgements / the forwarding decision written since imply
+  let mut fh := if node == "A" then s.fhA else s.fhB
+  for p in k.fwdD do
+    let h : Fwd.Hist := match fh.find? (·.height == p.height) with
+      | some h => h
+      | none => { height := p.height, adds := p.adds, sfs := p.sfs }
+    if !fh.any (·.height == p.height) then fh := fh ++ [h]
+    s := { s with pkgDetailChecks := s.pkgDetailChecks + 1 }
+    if !h.acked.isEmpty || !h.sfAcked.isEmpty || h.fwd.isSome then s := { s with pkgPartial := s.pkgPartial + 1 }
+    for (cl, det) in Fwd.Driver.pkgViolations s!"node={node} package {p.height}" p h do
+      s ← monitor s cl det
+  s := if node == "A" then { s with fhA := fh } else { s with fhB := fh }
   -- signatures
   let x := if node == "A" then s.xA else s.xB
   if !s.borked then
@@ -1018,7 +1062,7 @@ def step (s : St) (line : String) : IO St := do
                       caseMonitor := 0, cap := cfgA.capacity, anchors := cfgA.anchors, cfgA := cfgA,
                       qab := [], qba := [], dA := {}, dB := {}, pD := {}, probing := none, kA := {}, kB := {},
                       kPrevA := none, kPrevB := none, reloaded := [], xA := [], xB := [], sentA := "-", sentB := "-",
-                      revsA := [], revsB := [], fwdA := [], fwdB := [], borked := false, taint := none, vA := 0, vB := 0,
+                      revsA := [], revsB := [], fwdA := [], fwdB := [], fhA := [], fhB := [], borked := false, taint := none, vA := 0, vB := 0,
                       dirty := [], qlenAB := 0, qlenBA := 0, dead := false, resolved := [], hist := [] }
     if s.samples < 4 then
       IO.println s!"SAMPLE {line}"
@@ -1085,7 +1129,8 @@ def step (s : St) (line : String) : IO St := do
       | _ => { k with rulL := us }
   | "KF" :: node :: toks =>
     return updK s node fun k =>
-      { k with raw := k.raw ++ [line], fwd := toks.filterMap parseFwd, fwdErr := toks.contains "err" }
+      { k with raw := k.raw ++ [line], fwd := toks.filterMap parseFwd, fwdD := toks.filterMap parseFwdD,
+               fwdErr := toks.contains "err" }
   | "S" :: node :: rest =>
     let h := (kv? rest "sent").getD "-"
     return if node == "A" then { s with sentA := h } else { s with sentB := h }
@@ -1117,6 +1162,39 @@ def step (s : St) (line : String) : IO St := do
         if r.toString != impl then
           s ← mismatch s s!"node={recv} bogus revocation ({(kv? rest "kind").getD "?"} h={h}): model={r.toString} impl={impl}"
         else s := setModel s recv ms'
+    return s
+  | "L" :: node :: rest =>
+    -- what the node's link does to its forwarding packages (one database transaction)
+    let s ← flush s
+    let impl := resOf ws
+    let fh := if node == "A" then s.fhA else s.fhB
+    let op := (kv? rest "op").getD "?"
+    let mut s := { s with ops := s.ops + 1, linkOps := s.linkOps + 1, errKinds := bump s.errKinds ("link_" ++ op ++ "_" ++ impl) }
+    let known (h : Nat) : Bool := fh.any (·.height == h)
+    let fop : Option Fwd.FOp := match op with
+      | "setfwd" =>
+        let passed := Fwd.Driver.parseFDump ((kv? (afterArrow ws) "passed").getD "")
+        (Fwd.Filter.decode passed.enc).map fun f => Fwd.FOp.setFwd ((kvNat? rest "h").getD 0) f
+      | "ackadd" => some (.ack false (Fwd.Driver.parseRefs ((kv? rest "refs").getD "-")))
+      | "acksf" => some (.ack true (Fwd.Driver.parseRefs ((kv? rest "refs").getD "-")))
+      | _ => none
+    match fop with
+    | none =>
+      if op == "setfwd" then
+        s ← monitor s "fwdpkg-reload" s!"node={node} package {(kvNat? rest "h").getD 0}: recording the forwarding decision on the reloaded package's FwdFilter => {impl} ({(kv? (afterArrow ws) "passed").getD "?"})"
+      else s ← mismatch s s!"unparsed link operation"
+    | some o =>
+      if impl == "ok" then
+        -- the filter a restarted link passes is the reloaded FwdFilter with its decision set
+        if let .setFwd h f := o then
+          if let some p := fh.find? (·.height == h) then
+            let want := (Fwd.Driver.parseNats ((kv? rest "idx").getD "-")).foldl Fwd.Filter.set (p.fwd.getD (Fwd.Filter.new p.adds.length))
+            if want != f then
+              s ← monitor s "fwdpkg-reload" s!"node={node} package {h}: FwdFilter of the reloaded package with its decision set is {Fwd.Driver.showFilter f}, expected {Fwd.Driver.showFilter want}"
+        let fh' := Fwd.histStep fh o
+        s := if node == "A" then { s with fhA := fh' } else { s with fhB := fh' }
+      else if Fwd.opOK fh o && (match o with | .setFwd h _ => known h | _ => true) then
+        s ← monitor s "fwdpkg-op-failed" s!"node={node} link operation {op} with valid references => {impl}"
     return s
   | "R" :: _ => reloadLine s ws
   | "Y" :: _ => syncLine s ws
@@ -1153,7 +1231,11 @@ def step (s : St) (line : String) : IO St := do
 end LndModel.C02.Driver
 
 open LndModel.C02.Driver in
-def main : IO Unit := do
+def main (args : List String) : IO Unit := do
+  -- stream `fwdpkg` (package channeldb): the forwarding-package store, see FwdDriver.lean
+  if args.getLast? == some "fwdpkg" then
+    LndModel.C02.Fwd.Driver.main
+    return
   let s ← LndModel.Lines.foldStdin step {}
   let s ← flush s
   IO.println s!"STAT lines={s.lines}"
@@ -1172,6 +1254,9 @@ def main : IO Unit := do
   IO.println s!"STAT stale_handle_writes_checked={s.staleWrites}"
   IO.println s!"STAT failed_write_operations={s.borkedOps}"
   IO.println s!"STAT chan_sync_resign_refused_by_channel_constraints={s.syncSignRefused}"
+  IO.println s!"STAT link_operations_on_forwarding_packages={s.linkOps}"
+  IO.println s!"STAT forwarding_packages_checked_in_full={s.pkgDetailChecks}"
+  IO.println s!"STAT forwarding_packages_checked_with_acks_or_decision={s.pkgPartial}"
   IO.println s!"STAT dishonest_revocations={s.bogus}"
   IO.println s!"STAT dishonest_revocations_at_even_heights={s.bogusEven}"
   IO.println s!"STAT theorem_hypotheses_evaluated_on_real_states={s.hypChecks}"
